@@ -241,6 +241,10 @@ def c04_3(ctx):
             wmap[tagc[0]] = w
         elif isinstance(v, ast.Call) and call_name(v) == "bytes":
             tiles.append((s, None, 1, n))
+        elif tagc == b"" and isinstance(v.right, ast.Call) and call_name(v.right) in ("int_to_little_endian", "int_to_big_endian") and fold.fold(v.right.args[1]) == 1:
+            tiles.append((s, None, 1, n))  # empty prefix + one byte: the tag-less form written through the codec helper
+        elif isinstance(v, ast.Call) and call_name(v) in ("int_to_little_endian", "int_to_big_endian") and len(v.args) == 2 and fold.fold(v.args[1]) == 1:
+            tiles.append((s, None, 1, n))
         else:
             raise AnalysisError("encode_varint: return form not recognised: %s" % ast.unparse(v))
     raise_set = ISet.empty()
